@@ -289,6 +289,20 @@ def _stats(chk):
                                         ok = srcs <= {"self.sample_dims", "sample_dims"} and bool(srcs)
                     chk.check(ok, "WIRE.stats", fit, st, construct=f"Scaler.fit: self.{attr} = X.{red}(sample dims)",
                               why=f"{attr} must be the {red} of the fit data over the sample dimensions")
+                    # each feature's statistic is a function of that feature alone: a bound / fill value applied to it is a
+                    # constant, not something computed from the data (a floor relative to the largest std couples the
+                    # features: rescaling one feature changes how another one is standardised)
+                    for p in ff.paths(st.value, spine_only=True):
+                        if not (p.atom.kind == "param" and p.atom.name == data):
+                            continue
+                        for o in p.ops:
+                            if o.kind == "method" and o.name in ("clip", "where", "fillna", "maximum", "minimum"):
+                                args = list(o.node.args) + [k.value for k in o.node.keywords]
+                                dep = [a for a in args if any(q.atom.kind == "param" and q.atom.name == data for q in ff.paths(a, spine_only=False))
+                                       and not (o.name == "where" and a is (o.node.args[0] if o.node.args else None))]
+                                chk.check(not dep, "WIRE.stats.bound", fit, o.node, construct=f"Scaler.fit: bound / fill of self.{attr} is a constant",
+                                          why=f"self.{attr} is bounded by `{norm(dep[0])[:70] if dep else ''}`, which is computed from the data: the statistic of one feature "
+                                              "depends on the other features, so per-feature rescaling is no longer a no-op under standardisation")
     sd = [st for st in ff.statements() if isinstance(st, ast.Assign) and is_self_attr(st.targets[0], "sample_dims")]
     chk.check(bool(sd) and norm(sd[0].value) == "sample_dims", "WIRE.stats", fit, sd[0] if sd else fit.node, construct="Scaler.fit: self.sample_dims <- sample_dims",
               why="the scaler's sample dimensions are not the ones given to fit")
